@@ -165,7 +165,6 @@ static void run_sequence(void)
       d.input_frames_used = SENT; d.output_frames_gen = SENT;
       rc = src_simple(ion? 0 : &d, (SRC_SRCTYPE)id, c);
       if (d.input_frames_used == SENT && d.output_frames_gen == SENT) out("R rc=%d refused", rc);
-      else if (rc) out("R rc=%d garbage", rc);
       else out("R rc=%d used=%ld gen=%ld", rc, d.input_frames_used, d.output_frames_gen);
       free(ib); free(ob);
     }
